@@ -50,6 +50,7 @@ class Ctx:
         self.exhaustive = None
         self.extra = {}
         self.notes = []
+        self.drift = {}            # (what, site) -> count: the code no longer follows the MODELLED mechanism, the property holds
         self._open = [f for f in load_findings()
                       if f.get("status") == "open" and f.get("property") == prop]
 
@@ -134,6 +135,14 @@ class Ctx:
                 sig = t.get("sig", "")
             self.violation(clause, t.get("site", site), sig, v.describe(), case=t)
 
+    def model_drift(self, what, site, detail=""):
+        """The implementation does something the mechanism-level model does not describe, while every clause of the
+        property itself was decided on the same run and holds: not a violation (a correct change of the algorithm must
+        not raise an alarm), but the specification has to be brought up to date - reported as MODEL-DRIFT, exit code
+        unchanged."""
+        d = self.drift.setdefault((what, site), dict(n=0, detail=str(detail)[:400]))
+        d["n"] += 1
+
     # ---------------------------------------------------------------- finish
     def finish(self):
         wall = time.time() - self.t0
@@ -146,6 +155,8 @@ class Ctx:
                                        for k, v in self.known_hits.items()],
                    skipped=self.skipped)
         cov.update(self.extra)
+        if self.drift:
+            cov["model_drift"] = [dict(what=k[0], site=k[1], n=v["n"], detail=v["detail"]) for k, v in self.drift.items()]
         ev = dict(property_id=self.prop, tier=self.tier, seed=self.seed, level=self.level,
                   coverage=cov, assumptions=self.assumptions, wall_s=round(wall, 2),
                   violations=len(self.violations))
@@ -155,6 +166,9 @@ class Ctx:
         for k, v in self.known_hits.items():
             print("KNOWN-FINDING: property=%s clause=%s site=%s signature=%s hits=%d :: %s"
                   % (self.prop, k[0], k[1], k[2], v["n"], v["what"]))
+        for k, v in self.drift.items():
+            print("MODEL-DRIFT: property=%s %s site=%s n=%d (the property was decided on the same runs and holds; the "
+                  "mechanism model needs an update) :: %s" % (self.prop, k[0], k[1], v["n"], v["detail"][:200]))
         for v in self.violations:
             print("VIOLATION property=%s replay=%s" % (self.prop, v["replay"]))
             print("  clause=%s site=%s signature=%s count=%d\n  detail=%s"
